@@ -36,7 +36,16 @@ func (self ValueAnyObject) Display() (string, *Interrupt) {
 }
 
 func (self ValueAnyObject) IsEqual(other Value) (bool, *Interrupt) {
+	if other.Kind() != self.Kind() {
+		return false, nil
+	}
+
 	otherObj := other.(ValueAnyObject)
+
+	// both must have the same fields, not only the ones of `self`
+	if len(otherObj.FieldsInternal) != len(self.FieldsInternal) {
+		return false, nil
+	}
 
 	for key, value := range self.FieldsInternal {
 		otherValue, found := otherObj.FieldsInternal[key]
